@@ -38,6 +38,20 @@ structure InitLike {σ : Type} (o : Ops σ) (V : σ → Prop) (abs : σ → List
   seekOk : ∀ t, (o.seek t s0).2 = !(dropLt t L).isEmpty
   fuel : L.length ≤ o.fuel s0 + 1
 
+/-- the part of `InitLike` that concerns `Next` only (enough for reading with `Next`, and for
+    being a side of a `dedupSeriesIterator`, whose constructor calls `Next`) -/
+structure InitNext {σ : Type} (o : Ops σ) (V : σ → Prop) (abs : σ → List Sample) (s0 : σ)
+    (L : List Sample) : Prop where
+  lower : ∀ x ∈ L, minT < x.t
+  nextV : V (o.next s0).1
+  nextAbs : abs (o.next s0).1 = L
+  nextOk : (o.next s0).2 = !L.isEmpty
+  fuel : L.length ≤ o.fuel s0 + 1
+
+theorem InitLike.toNext {σ : Type} {o : Ops σ} {V : σ → Prop} {abs : σ → List Sample} {s0 : σ}
+    {L : List Sample} (h : InitLike o V abs s0 L) : InitNext o V abs s0 L :=
+  ⟨h.lower, h.nextV, h.nextAbs, h.nextOk, h.fuel⟩
+
 /-! ### the list iterator -/
 
 def leafV (l : Leaf) : Prop := l.started = true ∧ ∀ x ∈ l.rest, minT < x.t
@@ -591,7 +605,7 @@ theorem node_listLike (ha : ListLike oa Va absA) (hb : ListLike ob Vb absB) (fix
 /-- `newDedupSeriesIterator(a, b)` over two fresh list-like iterators that will yield `La`, `Lb`
     is a fresh list-like iterator (with the repaired `Seek`) that will yield `pm2 minT La Lb` -/
 theorem node_initLike (ha : ListLike oa Va absA) (hb : ListLike ob Vb absB) {a : α} {b : β}
-    {La Lb : List Sample} (ia : InitLike oa Va absA a La) (ib : InitLike ob Vb absB b Lb) :
+    {La Lb : List Sample} (ia : InitNext oa Va absA a La) (ib : InitNext ob Vb absB b Lb) :
     InitLike (nodeOps oa ob true) (nodeV Va Vb absA absB) (nodeAbs absA absB) (nodeNew oa ob a b)
       (pm2 minT La Lb) := by
   have hW : NodeW Va Vb absA absB (nodeNew oa ob a b) :=
@@ -674,6 +688,33 @@ theorem drainN_spec {σ : Type} {o : Ops σ} {V : σ → Prop} {abs : σ → Lis
       simp only [List.head?_cons, List.take_succ_cons]
       rw [ih _ (h.nextV s hV hne) hne', h.nextAbs s hV hne, htl]
       rfl
+
+/-- the same with the `Next`-only laws -/
+def GoodN (i : AnyIt) (L : List Sample) : Prop :=
+  ∃ (V : i.σ → Prop) (abs : i.σ → List Sample), ListLike i.ops V abs ∧ InitNext i.ops V abs i.st L
+
+theorem GoodL.toN {i : AnyIt} {L : List Sample} (h : GoodL i L) : GoodN i L := by
+  obtain ⟨V, abs, hl, hi⟩ := h
+  exact ⟨V, abs, hl, hi.toNext⟩
+
+theorem drain_goodN {i : AnyIt} {L : List Sample} (h : GoodN i L) : drain i = L := by
+  obtain ⟨V, abs, hl, hi⟩ := h
+  show drainN i.ops (i.ops.fuel i.st + 1) i.st = L
+  unfold drainN
+  simp only [hi.nextOk]
+  cases hL : L with
+  | nil => simp
+  | cons x tl =>
+    have hne : abs (i.ops.next i.st).1 ≠ [] := by rw [hi.nextAbs, hL]; simp
+    simp only [List.isEmpty_cons, Bool.not_false, if_true]
+    rw [hl.atS _ hi.nextV hne, hi.nextAbs, hL]
+    simp only [List.head?_cons]
+    rw [drainN_spec hl _ _ hi.nextV hne, hi.nextAbs, hL]
+    have := hi.fuel
+    rw [hL] at this
+    simp only [List.length_cons] at this
+    simp only [List.tail_cons]
+    rw [List.take_of_length_le (by omega)]
 
 theorem drain_good {i : AnyIt} {L : List Sample} (h : GoodL i L) : drain i = L := by
   obtain ⟨V, abs, hl, hi⟩ := h
